@@ -21,6 +21,7 @@ import (
 	"github.com/google/certificate-transparency-go/ctutil"
 	"github.com/google/certificate-transparency-go/jsonclient"
 	"github.com/google/certificate-transparency-go/tls"
+	"github.com/google/certificate-transparency-go/trillian/ctfe"
 	"github.com/google/certificate-transparency-go/x509"
 	"pgregory.net/rapid"
 
@@ -54,6 +55,10 @@ type Case struct {
 	Indirect   bool // external issuance-chain storage
 	// Preload > 0: the tree already holds that many sequenced entries when the history starts
 	Preload int
+	// Verbosity is the process-wide klog -v level; QuotaUsers configures the two optional quota-charging
+	// callbacks. Neither may change what is logged or served.
+	Verbosity  int
+	QuotaUsers bool
 	// Bulky: some certificates carry 300-450 KiB of padding, so that a few entries exceed a megabyte
 	Bulky bool
 	// concurrent variant
@@ -77,7 +82,8 @@ func genOps(t *rapid.T, n int, label string) []Op {
 		case k <= 10:
 			ops = append(ops, Op{Kind: "sth"})
 		case k <= 12:
-			ops = append(ops, Op{Kind: "cons", A: rapid.IntRange(0, 200).Draw(t, "a"), B: rapid.IntRange(0, 200).Draw(t, "b")})
+			// Flip: in a tree of >= 100 entries ask for (a, bcd) with a one-digit first, so that (ab, cd) is a pair too
+			ops = append(ops, Op{Kind: "cons", A: rapid.IntRange(0, 200).Draw(t, "a"), B: rapid.IntRange(0, 2000).Draw(t, "b"), Flip: rapid.Bool().Draw(t, "digits")})
 		case k <= 14:
 			ops = append(ops, Op{Kind: "proof", A: rapid.IntRange(0, 200).Draw(t, "a"), B: rapid.IntRange(0, 200).Draw(t, "b"), Flip: rapid.IntRange(0, 9).Draw(t, "unknown") == 0})
 		case k <= 16:
@@ -113,8 +119,19 @@ func gen(t *rapid.T) Case {
 	}
 	if !c.Indirect && rapid.IntRange(0, 3).Draw(t, "preloaded") == 0 {
 		c.Preload = rapid.IntRange(8, 130).Draw(t, "preload")
+		if rapid.IntRange(0, 2).Draw(t, "bigtree") == 0 {
+			c.Preload = rapid.IntRange(131, 1300).Draw(t, "preloadbig")
+		}
 	}
+	genProcessOptions(t, &c)
 	return c
+}
+
+func genProcessOptions(t *rapid.T, c *Case) {
+	if rapid.IntRange(0, 2).Draw(t, "verbose") == 0 {
+		c.Verbosity = rapid.IntRange(1, 5).Draw(t, "v")
+	}
+	c.QuotaUsers = rapid.IntRange(0, 2).Draw(t, "quota") == 0
 }
 
 // bulkUp gives most submissions of a history 300-450 KiB of padding and makes the get-entries ranges long.
@@ -169,6 +186,16 @@ func newRun(t *testing.T, v *harness.Verdict, c Case) *run {
 	r := &run{t: t, v: v, logKey: keys.Pick(c.LogKeyKind, 3+c.LogKeyIdx), be: reflog.New(6962, 1000003), wantExtra: map[string][][]byte{}, indirect: c.Indirect}
 	r.clock = ctfex.NewClock(time.UnixMilli(c.ClockMs))
 	o := ctfex.Opts{LogKey: r.logKey, Roots: world.Roots(), Backend: r.be, Clock: r.clock}
+	if c.QuotaUsers {
+		o.Inst = func(io *ctfe.InstanceOptions) {
+			io.RemoteQuotaUser = func(*http.Request) string { return "remote-user" }
+			io.CertificateQuotaUser = func(c *x509.Certificate) string { return "@intermediate " + c.Subject.CommonName }
+		}
+		v.Class("quota-users-configured")
+	}
+	if c.Verbosity > 0 {
+		v.Class(fmt.Sprintf("klog-v=%d", c.Verbosity))
+	}
 	if c.Indirect {
 		o.ChainStorage = memstore.New()
 		v.Class("external-chain-storage")
@@ -373,6 +400,9 @@ func (r *run) exec(ctx context.Context, op Op, concurrent bool) {
 		if op.A%7 == 0 {
 			first = 0
 		}
+		if op.Flip && cur >= 100 {
+			first, second = uint64(op.A)%9+1, 100+uint64(op.B)%(cur-99)
+		}
 		proof, err := r.lc.GetSTHConsistency(ctx, first, second)
 		if err != nil {
 			if op.Pad != 0 {
@@ -392,6 +422,30 @@ func (r *run) exec(ctx context.Context, op Op, concurrent bool) {
 			r.failf("consistency-proof", "served proof (%d,%d) does not verify: %v", first, second, err)
 		}
 		r.class("consistency-checked")
+		// the other in-range pairs that are written with the same digits (1,123 / 11,23 / 112,3 ...) are asked
+		// right afterwards on the same instance: each must get its own proof
+		digits := fmt.Sprint(first) + fmt.Sprint(second)
+		for cut := 1; cut < len(digits) && op.Pad == 0; cut++ {
+			if digits[cut] == '0' || digits[0] == '0' {
+				continue
+			}
+			var f2, s2 uint64
+			fmt.Sscan(digits[:cut], &f2)
+			fmt.Sscan(digits[cut:], &s2)
+			if f2 == first || f2 < 1 || f2 > s2 || s2 > cur {
+				continue
+			}
+			p2, err := r.lc.GetSTHConsistency(ctx, f2, s2)
+			if err != nil {
+				r.failf("consistency-refused", "get-sth-consistency(%d,%d) with tree %d: %v", f2, s2, cur, err)
+				continue
+			}
+			a, b := r.be.TreeRoot(int(f2)), r.be.TreeRoot(int(s2))
+			if err := mtree.VerifyConsistency(f2, s2, a[:], b[:], p2); err != nil {
+				r.failf("consistency-proof", "served proof (%d,%d), asked right after (%d,%d), does not verify: %v", f2, s2, first, second, err)
+			}
+			r.class("consistency-same-digits-pair")
+		}
 	case "proof":
 		r.proofByHash(ctx, op)
 	case "entries":
@@ -741,6 +795,10 @@ func (r *run) finalChecks(ctx context.Context) {
 }
 
 func check(t *testing.T, c Case) (v harness.Verdict) {
+	if c.Verbosity > 0 {
+		harness.SetKlogVerbosity(c.Verbosity)
+		defer harness.SetKlogVerbosity(0)
+	}
 	r := newRun(t, &v, c)
 	ctx := context.Background()
 	// every history starts by asking for the STH of the empty tree: its signed bytes are the same in every
@@ -771,10 +829,15 @@ func genConc(t *rapid.T) Case {
 	if !c.Indirect && rapid.IntRange(0, 3).Draw(t, "preloaded") == 0 {
 		c.Preload = rapid.IntRange(8, 130).Draw(t, "preload")
 	}
+	genProcessOptions(t, &c)
 	return c
 }
 
 func checkConc(t *testing.T, c Case) (v harness.Verdict) {
+	if c.Verbosity > 0 {
+		harness.SetKlogVerbosity(c.Verbosity)
+		defer harness.SetKlogVerbosity(0)
+	}
 	r := newRun(t, &v, c)
 	r.inst.SlowWriter = true
 	ctx := context.Background()
